@@ -114,24 +114,7 @@ fn is_assert(s: &syn::Stmt) -> bool {
     }
 }
 
-fn str_consts(f: &syn::File) -> BTreeMap<String, String> {
-    struct C(BTreeMap<String, String>);
-    impl<'ast> syn::visit::Visit<'ast> for C {
-        fn visit_item_const(&mut self, c: &'ast syn::ItemConst) {
-            if let Some(l) = str_lit(&c.expr) {
-                self.0.insert(c.ident.to_string(), l);
-            }
-        }
-        fn visit_impl_item_const(&mut self, c: &'ast syn::ImplItemConst) {
-            if let Some(l) = str_lit(&c.expr) {
-                self.0.insert(c.ident.to_string(), l);
-            }
-        }
-    }
-    let mut c = C(Default::default());
-    syn::visit::Visit::visit_file(&mut c, f);
-    c.0
-}
+use crate::mini::str_consts;
 
 /// `Self::F(a)` / `PkceCodeChallenge::F(a)` -> (F, a)
 fn self_call(e: &syn::Expr) -> Option<(String, &syn::Expr)> {
@@ -163,8 +146,11 @@ fn ctor_values(f: &syn::File, consts: &BTreeMap<String, String>, block: &syn::Bl
         match s {
             syn::Stmt::Local(l) => match plain_let(l) {
                 Some((n, _, v)) => {
-                    cx.vals.remove(&n);
-                    cx.lets.insert(n, v.clone());
+                    // translated HERE, with the bindings in force at this statement (a later `let` of the same name must not
+                    // change what an earlier use meant)
+                    let val = cx.pt(v);
+                    cx.lets.remove(&n);
+                    cx.vals.insert(n, val);
                 }
                 None => return Err("plain `let` statements".into()),
             },
